@@ -8,9 +8,11 @@
    comparison, equality, `^^`, pair, access, the apply forms), and
      lvl >= 1: space lists and comma lists,
      lvl >= 2: `&&` `||`,
-     lvl >= 3: conditionals `?>` `!>` and else-chains `|>`.
-   Nested expressions { }, side-effect blocks [ ], separators and `^~` are
-   outside (the reference parser Spec/Pratt.v is undefined on them).
+     lvl >= 3: conditionals `?>` `!>` and else-chains `|>`,
+     lvl >= 4: nested expressions `{ body }` whose body is one expression of
+               the fragment (no separators inside).
+   Side-effect blocks [ ], separators and `^~` are outside (the reference
+   parser Spec/Pratt.v is undefined on them).
 
    [rtree_of_expr e off]: the reference tree (Spec/Pratt.v) of the tokens
    Spec/Printer.v prints for e, when the first token of e has index [off].
@@ -32,7 +34,8 @@ Fixpoint efrag (lvl : nat) (e : expr) : bool :=
   | EAnd l r | EOr l r => Nat.leb 2 lvl && efrag lvl l && efrag lvl r
   | ECond _ c a => Nat.leb 3 lvl && efrag lvl c && efrag lvl a
   | EElse l r => Nat.leb 3 lvl && efrag lvl l && efrag lvl r
-  | ESeq _ _ _ | ESide _ _ | ENested _ _ | EReapply _ => false
+  | ENested _ b => Nat.leb 4 lvl && efrag lvl b
+  | ESeq _ _ _ | ESide _ _ | EReapply _ => false
   end.
 
 (* number of tokens printed for e *)
@@ -73,11 +76,12 @@ Fixpoint rtree_of_expr (e : expr) (off : nat) : rtree :=
       if is_prefix o then RPre (hdef e) off (rtree_of_expr x (off + 2))
       else RSuf (hdef e) (off + ntoks x + 1) (rtree_of_expr x off)
   | EGroup x => RGroup BRound off (rtree_of_expr x (off + 1))
+  | ENested _ b => RGroup BCurly off (rtree_of_expr b (off + 2))
   | EList Space l r =>
       RBin D_List None (rtree_of_expr l off) (rtree_of_expr r (off + ntoks l + 1))
   | EBin _ l r | EAnd l r | EOr l r | EList Comma l r | ECond _ l r | EElse l r =>
       RBin (hdef e) (Some (off + ntoks l + 1)) (rtree_of_expr l off) (rtree_of_expr r (off + ntoks l + 3))
-  | ESeq _ _ _ | ESide _ _ | ENested _ _ | EReapply _ => RAtom D_Drop off
+  | ESeq _ _ _ | ESide _ _ | EReapply _ => RAtom D_Drop off
   end.
 
 (* the items (Spec/Pratt.v) of the printed tokens *)
@@ -88,10 +92,11 @@ Fixpoint eitems (e : expr) (off : nat) : list item :=
       if is_prefix o then IPrefix (hdef e) off :: eitems x (off + 2)
       else eitems x off ++ [ISuffix (hdef e) (off + ntoks x + 1)]
   | EGroup x => IOpen BRound off :: eitems x (off + 1) ++ [IClose BRound (off + 1 + ntoks x)]
+  | ENested _ b => IOpen BCurly off :: eitems b (off + 2) ++ [IClose BCurly (off + 3 + ntoks b)]
   | EList Space l r => eitems l off ++ IBinary D_List None :: eitems r (off + ntoks l + 1)
   | EBin _ l r | EAnd l r | EOr l r | EList Comma l r | ECond _ l r | EElse l r =>
       eitems l off ++ IBinary (hdef e) (Some (off + ntoks l + 1)) :: eitems r (off + ntoks l + 3)
-  | ESeq _ _ _ | ESide _ _ | ENested _ _ | EReapply _ => []
+  | ESeq _ _ _ | ESide _ _ | EReapply _ => []
   end.
 
 (* the definition the parser stores for an atom *)
@@ -113,6 +118,8 @@ Fixpoint rep (e : expr) (off : nat) (t : ntree) : Prop :=
         match t with NSuf _ d k a => d = hdef e /\ k = off + ntoks x + 1 /\ rep x off a | _ => False end
   | EGroup x =>
       match t with NGroup BRound _ k a => k = off /\ rep x (off + 1) a | _ => False end
+  | ENested _ b =>
+      match t with NGroup BCurly _ k a => k = off /\ rep b (off + 2) a | _ => False end
   | EList Space l r =>
       match t with
       | NBin _ d k tl tr => d = D_List /\ k = None /\ rep l off tl /\ rep r (off + ntoks l + 1) tr
@@ -124,8 +131,9 @@ Fixpoint rep (e : expr) (off : nat) (t : ntree) : Prop :=
           d = hdef e /\ k = Some (off + ntoks l + 1) /\ rep l off tl /\ rep r (off + ntoks l + 3) tr
       | _ => False
       end
-  | ESeq _ _ _ | ESide _ _ | ENested _ _ | EReapply _ => False
+  | ESeq _ _ _ | ESide _ _ | EReapply _ => False
   end.
 
-(* the fragment the end-to-end theorem of C01 is stated for: all four levels *)
-Definition frag_e2e (e : expr) : bool := efrag 3 e.
+(* the fragment the end-to-end theorem of C01 is stated for: all levels *)
+Definition LV : nat := 4.
+Definition frag_e2e (e : expr) : bool := efrag LV e.
